@@ -1,0 +1,28 @@
+//go:build verif
+
+// Contracts for govc (see /verif/DESIGN.md). Comment-only: no executable code with or without the tag.
+
+package responder
+
+//@ import dns "github.com/refraction-networking/conjure/pkg/registrars/dns-registrar/dns"
+
+// C11: a DNS query parsed from arbitrary bytes (any number of questions and additional records, any flags) is
+// answered without an index out of range; a payload is handed on only for a query with exactly one question.
+//@ func (name dns.Name) TrimSuffix(suffix dns.Name) (dns.Name, bool)
+//@   assigns nothing
+//@ func (m *dns.Message) Opcode() uint16
+//@   assigns nothing
+//@ func (m *dns.Message) Rcode() uint16
+//@   assigns nothing
+
+//@ func (r *Responder) responseFor(query *dns.Message, domain dns.Name) (*dns.Message, []byte)
+//@   requires r != nil && query != nil
+//@   ensures @C11: len(result1) > 0 || result1 != nil ==> result0 != nil && len(result0.Question) == 1
+//@   checks safety
+//@ loop 1:
+//@   invariant r != nil && query != nil && fresh(resp) && resp != nil && 0 <= iter && iter <= len(query.Additional) && len(resp.Additional) <= 1 && resp.Question == query.Question
+
+//@ func (r *Responder) dnsRespToUDPResp(resp *dns.Message, response []byte) ([]byte, error)
+//@   requires r != nil && resp != nil
+//@   ensures @C11: true
+//@   checks safety
